@@ -207,6 +207,56 @@ def replay(model, fnd, prop):
     return None, path, "native replay inconclusive (rc=%s)" % rc
 
 
+def build_reopen_scan(fns):
+    """initialize_state (re-open scan): every item entered into the tracked state is counted once - item count + 1 and byte total +
+    its length - on every path of the innermost scan loop, including the one that stops the scan early and returns the counters"""
+    f = mir.find_fn(fns, r"disk::<impl at [^>]*>::initialize_state$")
+    loops = mir.natural_loops(f)
+    cands = [h for h, body in loops.items() if any(re.search(r"VerificationCell::<.*>::new_unverified$", f.blocks[b][1].split("(")[0]) for b in body)]
+    if not cands:
+        raise LookupError("initialize_state: scan loop not found")
+    head = min(cands, key=lambda h: len(loops[h]))
+    ni = symex.parse_place(f.debug["num_items"][0])[1]
+    tb = symex.parse_place(f.debug["total_bytes"][0])[1]
+    s = symex.Sym(f, prefix="scan.", models=symex.STD_MODELS, max_visits=1)
+    p0 = symex.Path()
+    p0.decls = s.decls
+    n0 = s.load(p0, ("local", ni), "usize").t
+    b0 = s.load(p0, ("local", tb), "u64").t
+    sc = smt.Script("c13_reopen_scan_counts")
+    n = 0
+    for i, p in enumerate(s.run(head, max_paths=4000)):
+        pushed = [e for e in p.events if re.search(r"new_unverified$", e[0])]
+        if not pushed or p.end not in ("bound", "return"):
+            continue
+        item = pushed[0][4][0]
+        ln = None
+        if item.kind == "opaque":
+            for k_, v in p.store.items():
+                pass
+        # the length added is a u64 field of the parsed item: read it off the byte total's new value
+        if p.end == "bound":
+            n1 = s.load(p, ("local", ni), "usize").t
+            b1 = s.load(p, ("local", tb), "u64").t
+            tag = "scan step"
+        else:
+            cs = [e for e in p.events if re.search(r"CacheState::new$", e[0])]
+            if not cs:
+                continue  # error return
+            n1, b1 = cs[-1][4][1].t, cs[-1][4][2].t
+            tag = "scan stopped early"
+        n += 1
+        sc.query("%s: an item entered into the tracked state is counted once [path %d]" % (tag, i), p.pc + [mk_not(mk_eq(n1, "(bvadd %s %s)" % (n0, bvconst(1, 64))))])
+        m = re.match(r"\(bvadd %s (\S+)\)$" % re.escape(b0), b1)
+        ok = bool(m) and re.search(r"\.\d+$", m.group(1)) is not None
+        sc.query("%s: the byte total grows by a field of the item entered (its length), exactly once [path %d]" % (tag, i), ["false"] if ok else ["true"])
+        sc.query("witness: %s feasible [path %d]" % (tag, i), p.pc, expect="sat", kind="witness")
+    if n < 2:
+        raise LookupError("initialize_state: expected a continuing and an early-stop path that enter an item (%d)" % n)
+    sc.declare(s.decls)
+    return [sc]
+
+
 SMT = [
     Q("c13_removal_loop", "byte accounting of items removed at commit, inductive loop step", "chunk_cache", build_loop,
       functions=["chunk_cache::disk::DiskCache::put_impl (removal loop body)"], bounds="one iteration from an arbitrary state", replay=replay_both),
@@ -214,4 +264,6 @@ SMT = [
       functions=["chunk_cache::disk::DiskCache::put_impl (commit region)"], bounds="one commit from an arbitrary state", replay=replay_both),
     Q("c13_reopen_size_filter", "re-open scan tracks every cache file that fits the capacity", "chunk_cache", build_reopen,
       functions=["chunk_cache::disk::try_parse_cache_file"], bounds="all paths", replay=_native("item_of_exactly_capacity_is_tracked_after_reopen")),
+    Q("c13_reopen_scan_counts", "re-open scan counts every item it tracks (also when it stops early)", "chunk_cache", build_reopen_scan,
+      functions=["chunk_cache::disk::DiskCache::initialize_state (innermost scan loop)"], bounds="one iteration from an arbitrary state", replay=_native("reopen_counters_match_tracked_items")),
 ]
